@@ -681,6 +681,37 @@ def one_prior(ctx, d, units=None, seeds=None, cfg=None, label="gen", mp_queue=No
                          "unit value maps to a different physical value when carried by " + cname,
                          {"prior": canon_prior(d), "units": [num(q)], "carrier": cname}, {"got": num(got), "want": num(base)})
 
+    # ---- derived priors: a prior made from a used one (with_message as expectation propagation does, new())
+    # behaves like a freshly constructed prior with the same parameters - nothing computed for the parent
+    # (unit limits, draws) may stick to it
+    d2 = dict(d)
+    if k in "GN" and d.get("sigma", 0.0) > 0 and math.isfinite(d["mean"]):
+        d2["mean"] = d["mean"] + d["sigma"] * rng.choice([-2.0, 0.5, 3.0])
+        d2["sigma"] = d["sigma"] * rng.choice([0.5, 1.0, 2.0])
+    try:
+        fresh = build(d2)
+        _ = (p.lower_unit_limit, p.upper_unit_limit)
+        derived = [("with_message", p.with_message(fresh.message), fresh), ("new", p.new(), p)]
+    except Exception as e:  # noqa
+        ctx.hit("derived-unavailable:" + type(e).__name__)
+        derived = []
+    for how, q, ref_p in derived:
+        ctx.hit("derived:" + how)
+        probes = [0.0, 1.0, 0.5, 0.25, rng.random(), rng.random()]
+        got = [num_or(call(q.value_for, u)) for u in probes] + [num_or(call(lambda: q.lower_unit_limit)), num_or(call(lambda: q.upper_unit_limit))]
+        want = [num_or(call(ref_p.value_for, u)) for u in probes] + [num_or(call(lambda: ref_p.lower_unit_limit)), num_or(call(lambda: ref_p.upper_unit_limit))]
+        sd = rng.randrange(1 << 30)
+        pyrandom.seed(sd)
+        got.append(num_or(call(q.random)))
+        pyrandom.seed(sd)
+        want.append(num_or(call(ref_p.random)))
+        if got != want:
+            ctx.fail("C02-derived-prior-differs",
+                     f"a prior derived by {how}() from a used prior does not behave like a fresh prior with the same parameters "
+                     "(value_for / unit limits / random with the same generator state)",
+                     {"prior": canon_prior(d), "derived": canon_prior(d2), "how": how, "units": [num(u) for u in probes]},
+                     {"got": got, "want": want})
+
     case0["seeds"] = [list(s) for s in sub]
     ctx.case(case0, nontrivial=n_values >= 3,
              sample={"prior": canon_prior(d), "units": [num(u) for u in units[:6]],
